@@ -137,7 +137,10 @@ fn gen_string(r: &mut Rng, packed: bool) -> Vec<u16> {
         }
     }
     // terminator: a zero word; for packed strings ending on a full word the zero word is needed
-    if !(packed && v.last().is_some_and(|w| w >> 8 == 0) && r.chance(1, 2)) { v.push(0); }
+    // (a packed string also ends at a zero LOW byte whatever the high byte of that word is)
+    if !(packed && v.last().is_some_and(|w| w >> 8 == 0) && r.chance(1, 2)) {
+        v.push(if packed && r.chance(1, 3) { byte(r) << 8 } else { 0 });
+    }
     v
 }
 
